@@ -199,14 +199,60 @@ class NacCase:
 
     def nac_dm(self, ph, q_prim, route, direction=None):
         """route 'qpoints': Phonopy.run_qpoints (compiled solver over q-points);
-        'dmrun': DynamicalMatrixNAC.run(q, q_direction)."""
+        'dmrun': DynamicalMatrixNAC.run(q, q_direction);
+        'qpoints_py': run_qpoints with the extension reporting use_openmp() = False (QpointsPhonon goes
+                     through _get_dynamical_matrix, its own zone-centre test, and DynamicalMatrixNAC.run);
+        'wang_py': the ImportError branch of DynamicalMatrixWang._compute_dynamical_matrix (_get_charge_sum,
+                     _get_constant_factor, _run_py_Wang_force_constants) followed by the Python Fourier sum;
+        'fullterms': a DynamicalMatrixGL object with with_full_terms=True (reciprocal + real-space + limiting
+                     terms, Python path), through DynamicalMatrixNAC.run."""
+        import sys
         with quiet():
             if route == "qpoints":
                 ph.run_qpoints([q_prim], nac_q_direction=direction, with_dynamical_matrices=True)
                 return np.array(ph.get_qpoints_dict()["dynamical_matrices"][0])
+            if route == "qpoints_py":
+                import phonopy._phonopy as phonoc
+                orig = phonoc.use_openmp
+                phonoc.use_openmp = lambda: False
+                try:
+                    ph.run_qpoints([q_prim], nac_q_direction=direction, with_dynamical_matrices=True)
+                finally:
+                    phonoc.use_openmp = orig
+                return np.array(ph.get_qpoints_dict()["dynamical_matrices"][0])
             dm = ph.dynamical_matrix
-            dm.run(np.array(q_prim, dtype=float), q_direction=None if direction is None else np.array(direction, float))
+            qa = np.array(q_prim, dtype=float)
+            da = None if direction is None else np.array(direction, float)
+            if route == "wang_py":
+                from phonopy.harmonic.dynamical_matrix import DynamicalMatrix
+                saved = sys.modules.get("phonopy._phonopy")
+                sys.modules["phonopy._phonopy"] = None          # `import phonopy._phonopy` raises ImportError
+                dm._run = lambda q, lang="C": DynamicalMatrix._run(dm, q, lang="Py")
+                try:
+                    if da is None and np.linalg.norm(dm._rec_lat @ qa) < dm.Q_DIRECTION_TOLERANCE:
+                        DynamicalMatrix._run(dm, qa, lang="Py")
+                    else:
+                        dm._compute_dynamical_matrix(qa, da)
+                finally:
+                    del dm._run
+                    sys.modules["phonopy._phonopy"] = saved
+                return np.array(dm.dynamical_matrix)
+            if route == "fullterms":
+                dm = self.gl_full(ph)
+            dm.run(qa, q_direction=da)
             return np.array(dm.dynamical_matrix)
+
+    def gl_full(self, ph):
+        """DynamicalMatrixGL(with_full_terms=True) with the parameters and force constants of ph."""
+        from phonopy.harmonic.dynamical_matrix import DynamicalMatrixGL
+        key = ("fullterms", id(ph))
+        if key not in self._nac_objs:
+            src = ph.dynamical_matrix
+            self._nac_objs[key] = DynamicalMatrixGL(
+                ph.supercell, ph.primitive, np.array(src.force_constants).copy(), with_full_terms=True,
+                nac_params=dict(born=np.array(src.born), dielectric=np.array(src.dielectric_constant),
+                                factor=self.factor))
+        return self._nac_objs[key]
 
 
 def require_actions_fired(ctx, res, module, actions):
